@@ -165,7 +165,8 @@ fn run_table(input: &Value, s: &Setup) -> CaseOut {
     let run = collector.start();
     let ca = if notify { &s.ca_notify } else { &s.ca_plain };
     let code = OUTCOMES.iter().position(|o| *o == outcome).unwrap() as u64;
-    routinator::verif::set_forced("collector.rrdp_outcome", vec![code]);
+    let uses = Config::verif_rrdp_outcome_uses();
+    Config::verif_set_rrdp_outcome(Some(code as u8));
     let res = std::panic::catch_unwind(std::panic::AssertUnwindSafe(|| {
         match run.repository(ca) {
             Ok(None) => "none",
@@ -174,15 +175,16 @@ fn run_table(input: &Value, s: &Setup) -> CaseOut {
         }
     })).unwrap_or("panic");
     // was the forced outcome consumed, i.e. did Run::repository ask the RRDP collector?
-    let consumed = routinator::verif::forced("collector.rrdp_outcome").is_none();
-    routinator::verif::set_forced("collector.rrdp_outcome", vec![]);
+    let consumed = Config::verif_rrdp_outcome_uses() == uses + 1;
+    let consumed_ok = Config::verif_rrdp_outcome_uses() <= uses + 1;
+    Config::verif_set_rrdp_outcome(None);
     let sources = fake.sources();
     let rsync_run = !sources.is_empty();
     let rsync_ok = sources.len() <= 1 && sources.iter().all(|m| m == CA_MODULE);
     let mut metrics = Metrics::default();
     run.done(&mut metrics);
     let rrdp_asked = !metrics.rrdp.is_empty();
-    let side_ok = rsync_ok && metrics.rsync.len() == sources.len() && rrdp_asked == consumed;
+    let side_ok = rsync_ok && consumed_ok && metrics.rsync.len() == sources.len() && rrdp_asked == consumed;
     let obs = json!({"transport": res, "rsync_command_run": rsync_run, "rsync_sources": sources,
                      "rrdp_collector_asked": rrdp_asked, "forced_outcome_consumed": consumed, "side_ok": side_ok});
     let coq = format!(
